@@ -93,6 +93,81 @@ def edit(rng, root, loose):
             pass
 
 
+HISTORY_DOCS = [
+    '<r><a><b><c/><c><d/></c>t</b><b/></a><e><f/></e></r>',
+    '<r><x><a k="1">t<b/>u<!--c--><b k="2"><c/><c/></b><?p q?></a><a/></x><y><z/></y></r>',
+]
+
+
+def addresses(ctx, root, contexts, what, doc):
+    """every tag node of the tree below `root`: its location_path, evaluated from each of `contexts`, is exactly the node"""
+    with altered_default_filters():
+        tags = [root] + [n for n in root.iterate_descendants() if isinstance(n, TagNode)]
+    seen = {}
+    for n in tags:
+        lp = n.location_path
+        if lp in seen:
+            ctx.fail("two tag nodes of one tree have the same location_path", {"doc": doc, "path": lp, "when": what})
+        seen[lp] = n
+        for c in contexts:
+            try:
+                res = list(c.xpath(lp))
+            except Exception as ex:     # noqa: BLE001
+                ctx.fail("evaluating location_path raises", {"doc": doc, "path": lp, "when": what, "error": type(ex).__name__})
+                continue
+            ctx.count(1, "history")
+            if len(res) != 1 or res[0] is not n:
+                ctx.fail("location_path does not select exactly its node", {"doc": doc, "path": lp, "when": what,
+                                                                           "got": [getattr(x, "location_path", repr(x)) for x in res]})
+
+
+def history_search(ctx, docs):
+    """the same node objects before and after edits of their ancestry: read and evaluate paths, detach the parent or a
+    higher ancestor of a node X (X is then in another tree), read and evaluate again from X and its siblings, attach the
+    detached tree elsewhere, evaluate again -- and the same with the edit first.  Nothing remembered from an earlier
+    evaluation (roots, indexes, parsed expressions) may survive the edit."""
+    rng = ctx.rng
+    for src in docs:
+        for order in ("evaluate-first", "edit-first"):
+            for up in (1, 2):
+                d = Document(src)
+                with altered_default_filters():
+                    tags = [n for n in d.root.iterate_descendants() if isinstance(n, TagNode)]
+                deep = [n for n in tags if n.depth >= up + 1]
+                if not deep:
+                    continue
+                # fixed choice first, a random one as well
+                for x in [deep[0], rng.choice(deep)]:
+                    d = Document(src)
+                    with altered_default_filters():
+                        tags = [n for n in d.root.iterate_descendants() if isinstance(n, TagNode)]
+                    deep = [n for n in tags if n.depth >= up + 1]
+                    x = deep[0] if x is deep[0] or len(deep) == 1 else rng.choice(deep)
+                    anc = x
+                    for _ in range(up):
+                        anc = anc.parent
+                    with altered_default_filters():
+                        sibs = [s_ for s_ in x.parent.iterate_children() if s_ is not x][:2]
+                    contexts = [x] + sibs
+                    if order == "evaluate-first":
+                        for c in contexts:
+                            c.xpath("/*")
+                            c.xpath("ancestor::*")
+                        addresses(ctx, d.root, contexts, "before the edit", src)
+                    with altered_default_filters():
+                        detached = anc.detach()
+                    addresses(ctx, detached, contexts + [detached], order + ": in the detached tree (ancestor %d up)" % up, src)
+                    addresses(ctx, d.root, [d.root], order + ": in the tree that remains", src)
+                    # attach it elsewhere: under the root, at the front
+                    with altered_default_filters():
+                        d.root.insert_children(0, detached)
+                    addresses(ctx, d.root, contexts + [d.root], order + ": after attaching the detached tree elsewhere", src)
+                    # and once more into a tree of its own, by another route
+                    with altered_default_filters():
+                        again = x.parent.detach() if x.parent is not None and x.parent is not d.root else x.detach()
+                    addresses(ctx, again, [x] + ([again] if again is not x else []), order + ": detached a second time", src)
+
+
 def run(ctx, args):
     rng = ctx.rng
     quick = ctx.tier == "quick"
@@ -187,6 +262,8 @@ def run(ctx, args):
                     eff = [(k, v) for k, v in xq.effective_nsmap(c, None) if k in ("", "xml")]
                     terms.append("run_locpath_eval T%d %s %s %s" % (ti, xq.coq_nsmap(eff), xq.coq_pos(pos), xq.coq_pos(cp)))
                     meta.append(("eval", dict(small, ctx=list(cp)), [0, 1, len(pos)] + list(pos)))
+    with no_gc():
+        history_search(ctx, HISTORY_DOCS + [c06.FIXED_DOCS[0]] + [c06.gen_doc(rng) for _ in range(3 if quick else 30)])
     res = xq.coq_eval_retry(ctx, "c14_cases", xq.REQ + "\n".join(preamble) + "\n", terms, chunk=250)
     for (kind, small, want), got in zip(meta, res):
         ctx.count(1, "model:" + kind)
